@@ -189,7 +189,7 @@ func postClean[T VFSBase](vfs T, out *lazybuf) {
 	// If a ':' appears in the path element at the start of a path,
 	// insert a .\ at the beginning to avoid converting relative paths
 	// like a/../c: into c:.
-	for _, c := range out.buf {
+	for _, c := range out.buf[:out.w] {
 		if IsPathSeparator(vfs, c) {
 			break
 		}
@@ -204,7 +204,7 @@ func postClean[T VFSBase](vfs T, out *lazybuf) {
 	// If a path begins with \??\, insert a \. at the beginning
 	// to avoid converting paths like \a\..\??\c:\x into \??\c:\x
 	// (equivalent to c:\x).
-	if len(out.buf) >= 3 && IsPathSeparator(vfs, out.buf[0]) && out.buf[1] == '?' && out.buf[2] == '?' {
+	if out.w >= 3 && IsPathSeparator(vfs, out.buf[0]) && out.buf[1] == '?' && out.buf[2] == '?' {
 		out.prepend(pathSeparator, '.')
 	}
 }
